@@ -359,7 +359,7 @@ func (fr *Frame) invoke(c *ssa.CallCommon, recv Val, args []Val, rt types.Type, 
 
 func (fr *Frame) applyContract(ct *Contract, sig *types.Signature, names []string, args []Val, rt types.Type, pos token.Pos, calleeKey string) Val {
 	vc := fr.vc
-	env := &Env{vc: vc, vars: map[string]Val{}, heap: fr.cur.heap, old: fr.cur.heap, now: fr.cur.now, pkg: fr.contractPkg(ct), what: "contract of " + calleeKey + " at " + fr.pos(pos).String()}
+	env := &Env{vc: vc, vars: map[string]Val{}, heap: fr.cur.heap, old: fr.cur.heap, now: fr.cur.now, pkg: fr.contractPkg(ct), what: "contract of " + calleeKey + " at " + fr.pos(pos).String(), reach: fr.curR}
 	for i, n := range names {
 		if i < len(args) {
 			env.vars[n] = args[i]
@@ -386,7 +386,7 @@ func (fr *Frame) applyContract(ct *Contract, sig *types.Signature, names []strin
 		res = vc.pureResult(calleeKey, pre, args, rt)
 	}
 	fr.typed(res)
-	post := &Env{vc: vc, vars: map[string]Val{}, heap: fr.cur.heap, old: pre, now: fr.cur.now, pkg: env.pkg, what: env.what, oldNowT: env.now}
+	post := &Env{vc: vc, vars: map[string]Val{}, heap: fr.cur.heap, old: pre, now: fr.cur.now, pkg: env.pkg, what: env.what, oldNowT: env.now, reach: fr.curR}
 	for k, v := range env.vars {
 		post.vars[k] = v
 	}
